@@ -31,6 +31,11 @@ CLAIMED = {
         text='Exploration: seeded two-endpoint scenarios with boundary calls (send, pop, queue and idle queries, terminate) interleaved at random scheduler steps and the queue/idle invariant evaluated after EVERY callback; scripted-peer refusal runs so that every contact signal is emitted; two real tcpcl.agent.Agent objects over the simulated listen/accept/connect path with shutdown() at 0-3 contacts in mixed states; the real UDPCL agent with benign transfers and hostile polling items.',
         note=_NOTE + ' The marshalling model is calibrated on 857 (signature, value) rows produced by real dbus-python 1.3.2.',
     ),
+    'C15': dict(
+        technique='runtime monitor of a real endpoint with a scenario-controlled fake TLS layer and real X.509 certificates, judged by an independent policy decision function over the whole decision table',
+        text='Exhaustive over the decision table (1602 rows): local/peer TLS capability x require-TLS x handshake result x role/naming x IP/DNS/URI SAN states x require-host x require-node; observed: handshake attempted, SESS_INIT emitted, state, SESS_TERM reason, closure, is_secure(), authn parameters, and a probe that no transfer flows after a refusal.',
+        note=_NOTE + ' The TLS handshake itself is simulated; only the decisions around it are judged.',
+    ),
     'C17': dict(
         technique='runtime monitor of loop exception records, decoded wire output, receive queue and own-transfer progress of a real endpoint driven by a scripted adversarial peer, judged by a peer-model automaton',
         text='Exploration with exhaustive sub-spaces: in each of six endpoint states and both roles, all sequences of length <= 2 (thorough <= 3 over a reduced alphabet) of ~16 state-relative messages (segments, ACKs, refusals, SESS_TERM, unknown types, bad contact headers), then seeded random sequences up to length 12; afterwards the scripted peer acknowledges honestly and the endpoint\'s own transfers must complete.',
